@@ -42,6 +42,15 @@ structure CancelMsg where
   aid : Nat
   deriving Repr, Inhabited
 
+/-- `types.GenesisState` (allowed bidders as complete records, as exported) -/
+structure GenesisG where
+  params : Params
+  auctions : List Auction
+  allowed : List AllowedArg
+  bids : List Bid
+  vqs : List VQ
+  deriving Repr, Inhabited
+
 structure UpdateParamsMsg where
   signer : Acc
   params : Params
@@ -145,6 +154,13 @@ def newFixedPriceAuction (ba : Auction) (remaining : Coin) : Auction := { ba wit
 /-- `types.NewBatchAuction(base, minBidPrice, matchedPrice, maxExtendedRound, extendedRoundRate)` -/
 def newBatchAuction (ba : Auction) (minBid matched : Dec) (maxExt : Int) (rate : Dec) : Auction :=
   { ba with minBid := minBid, matchedPrice := matched, maxExt := maxExt.toNat, rate := rate }
+
+/-- `fmt.Sprint(x)` as a component of a map key built by string concatenation -/
+class KeyPart (α : Type) where
+  part : α → List Int
+instance : KeyPart Int := ⟨fun i => [i]⟩
+instance : KeyPart Nat := ⟨fun n => [(n : Int)]⟩
+def keyPart {α : Type} [KeyPart α] (x : α) : List Int := KeyPart.part x
 
 /-- `xs[i]` on a slice; Go panics out of range — callers state the range as a hypothesis -/
 def index {α : Type} [Inhabited α] (xs : List α) (i : Int) : α := xs.getD i.toNat default
